@@ -40,15 +40,19 @@ func (pass *DisjunctionWithConstantToDefault) processDisjunction(_ *Visitor, _ *
 		return def, nil
 	}
 
-	if branches[0].Scalar.IsConcrete() {
-		def = branches[1]
-		def.Default = branches[0].Scalar.Value
-	} else {
-		def = branches[0]
-		def.Default = branches[1].Scalar.Value
+	constant, scalar := branches[0], branches[1]
+	if !constant.Scalar.IsConcrete() {
+		constant, scalar = branches[1], branches[0]
 	}
 
-	def.AddToPassesTrail("DisjunctionWithConstantToDefault")
+	// the constant only stands for a default when the disjunction declares none
+	scalar.Default = def.Default
+	if scalar.Default == nil && constant.Scalar.IsConcrete() {
+		scalar.Default = constant.Scalar.Value
+	}
+	scalar.Nullable = scalar.Nullable || def.Nullable
 
-	return def, nil
+	scalar.AddToPassesTrail("DisjunctionWithConstantToDefault")
+
+	return scalar, nil
 }
